@@ -5,6 +5,7 @@ import (
 	"encoding/json"
 	"errors"
 	"fmt"
+	"net/http"
 	"os"
 	"path/filepath"
 	"runtime/debug"
@@ -17,6 +18,8 @@ import (
 
 	"github.com/resonatehq/resonate/internal/aio"
 	"github.com/resonatehq/resonate/internal/api"
+	phttp "github.com/resonatehq/resonate/internal/app/plugins/http"
+	ppoll "github.com/resonatehq/resonate/internal/app/plugins/poll"
 	"github.com/resonatehq/resonate/internal/app/subsystems/aio/router"
 	"github.com/resonatehq/resonate/internal/app/subsystems/aio/sender"
 	"github.com/resonatehq/resonate/internal/app/subsystems/aio/store/sqlite"
@@ -193,8 +196,9 @@ func (p *parkAIO) EnqueueCQE(cqe *aioCQE) {
 
 // simPlugin is a simulated transport.
 type simPlugin struct {
-	typ string
-	sim *Sim
+	typ  string
+	sim  *Sim
+	poll *ppoll.Detached
 }
 
 func (p *simPlugin) String() string           { return "sim:" + p.typ }
@@ -206,19 +210,69 @@ func (p *simPlugin) Enqueue(m *aio.Message) bool {
 	out := s.curOutcome
 	rec := &MsgRec{Ev: s.nextEv(), Clock: s.Now, Cycle: s.curCycle, Type: string(m.Type), Plugin: p.typ, Data: string(m.Data), Body: string(m.Body), Outcome: out, TaskId: s.curTaskId, Counter: s.curCounter}
 	s.Msgs = append(s.Msgs, rec)
-	s.Stats["handoff."+out]++
-	s.onMessage(rec)
-	switch out {
-	case "full":
+	if out == "full" {
+		s.Stats["handoff."+out]++
+		s.onMessage(rec)
 		return false
-	case "false":
-		m.Done(false, nil)
-	case "error":
-		m.Done(false, errors.New("simulated transport error"))
-	default:
-		m.Done(true, nil)
 	}
+	// the transport's own handling of the address is production code: the http worker's Process
+	// runs over a simulated network, the poll worker's Process over an empty registry (it gets as
+	// far as looking the listener up). An address the transport cannot use is an undeliverable
+	// hand-off whatever the schedule says.
+	ok, err, reached := p.deliver(m, out)
+	if !reached {
+		rec.Outcome = "undeliverable"
+	}
+	s.Stats["handoff."+rec.Outcome]++
+	s.onMessage(rec)
+	m.Done(ok, err)
 	return true
+}
+
+type simRoundTripper struct {
+	outcome string
+	reached bool
+}
+
+func (t *simRoundTripper) RoundTrip(req *http.Request) (*http.Response, error) {
+	t.reached = true
+	switch t.outcome {
+	case "error":
+		return nil, errors.New("simulated transport error")
+	case "false":
+		return &http.Response{StatusCode: 500, Body: http.NoBody, Header: http.Header{}, Request: req}, nil
+	}
+	return &http.Response{StatusCode: 200, Body: http.NoBody, Header: http.Header{}, Request: req}, nil
+}
+
+func (p *simPlugin) deliver(m *aio.Message, out string) (ok bool, err error, reached bool) {
+	switch p.typ {
+	case "http":
+		rt := &simRoundTripper{outcome: out}
+		ok, err = phttp.NewWorker(&http.Client{Transport: rt}).Process(m.Data, m.Body)
+		return ok, err, rt.reached
+	case "poll":
+		if p.poll == nil {
+			p.poll = ppoll.NewDetached(p.sim.metrics, &ppoll.Config{Size: 1, MaxConnections: 1})
+		}
+		var perr error
+		answered := false
+		p.poll.Worker.Process(&aio.Message{Type: m.Type, Data: m.Data, Body: m.Body, Done: func(ok bool, err error) { answered, perr = true, err }})
+		if !answered {
+			return false, errors.New("the poll worker did not answer"), false
+		}
+		if perr == nil || !strings.HasPrefix(perr.Error(), "no connection found") {
+			// the address itself was refused (with an empty registry a usable address ends in "no connection found")
+			return false, perr, false
+		}
+	}
+	switch out {
+	case "false":
+		return false, nil, true
+	case "error":
+		return false, errors.New("simulated transport error"), true
+	}
+	return true, nil, true
 }
 
 // Sim is one simulated server life (across crashes and restarts) plus its
